@@ -396,6 +396,14 @@ def key_chain(ctx, rep, rule):
         ups = [x for x in sorted(b.calls(), key=lambda x: x.idx) if (x.term["callee"].get("path") or "").endswith("Digest::update")]
         args = [p.operand(x.term["args"][1]) for x in ups]
         want = [("arg", 2), ("arg", 3), ("arg", 2)]
+        # no short cut: every way out of localize runs the digest (an early return for a special engine id or key would hand
+        # back something that is not H(Ku | engineID | Ku))
+        fin = [x for x in b.calls() if (x.term["callee"].get("path") or "").endswith("Digest::finalize")]
+        rets = b.returns()
+        if ups and fin and rets:
+            cut = {(x.idx, s_) for x in fin for s_ in x.succs()}
+            rep.check(rule, "DigestAuth::localize|every-exit-hashes", cfg.must_pass(b, [0], rets, cut), "all exits go through the digest",
+                      "localize can return without computing the digest (an early return by-passes H(key | engine id | key))", b.loc(), obligation=True)
         if len(ups) == 3 and all(a[0] == "arg" for a in args):
             rep.check(rule, "DigestAuth::localize|H(key|engine|key)", args == want, "update(key), update(locality), update(key)",
                       "the localisation hash is fed %s (RFC 3414 A.2: key, engine id, key)" % [flow.fmt(a) for a in args], b.loc(), obligation=True)
@@ -529,6 +537,18 @@ def key_ffi(ctx, rep, rule):
                           pyr.loc(ctx, "user", e), obligation=True)
         if not n:
             rep.missing(rule, "user.User.__init__: self.priv_key._pad")
+        # the keys the user keeps are the ones handed in: nothing else is ever stored into them
+        seen_st = set()
+        for p in ps:
+            for e in p.events:
+                if e.kind == "store" and e.target in ("self.priv_key", "self.auth_key"):
+                    kk = (e.target, e.value)
+                    if kk in seen_st:
+                        continue
+                    seen_st.add(kk)
+                    rep.check(rule, "user.User.__init__|%s = %s" % (e.target, e.value[:40]), e.value == e.target[len("self."):], "the caller's key object",
+                              "%s is overwritten with %s: the configured key is lost (a None privacy key silently disables privacy)" % (e.target, e.value),
+                              pyr.loc(ctx, "user", e), obligation=True)
     ps = pyr.paths(ctx, rep, rule, "user", "BaseAuthKey", "__init__")
     if ps:
         pads = [e for p in ps for i, e in pyr.calls(p, lambda f: f in ("self._padded", "cls._padded")) if "@inlined" in (e.origin or ()) or not e.origin]
@@ -1140,6 +1160,11 @@ def nested_lengths(ctx, rep, rule):
                 rep.check(rule, key, body.path in top and last, "outermost SEQUENCE: buf.len() of a buffer that started empty",
                           "a nested element's length is taken from buf.len(): it is only right when the buffer held nothing before this element "
                           "(wrong under privacy, where the cipher's buffer already holds the padding)", body.loc(b.term["line"]), obligation=True)
+            elif flow.mentions(t0, lambda s_: s_[0] == "bin" and s_[1] in ("Add", "AddWithOverflow") and (s_[2][0] == "const" or s_[3][0] == "const")) and \
+                    flow.mentions(t0, lambda s_: s_[0] == "call" and (s_[1] or "").split("::")[-1] == "len" and not flow.mentions(s_, lambda x: x[0] == "call" and (x[1] or "").endswith("Buffer::len"))):
+                rep.violation(rule, key, "the length of a constructed element is computed as %s (contents length plus a constant header size) instead of being "
+                              "measured as buf.len() - mark: it is wrong as soon as an inner element needs a long-form length" % flow.fmt(t0)[:100],
+                              body.loc(b.term["line"]), obligation=True)
             else:
                 rep.inconclusive(rule, key, "length operand %s not recognised" % flow.fmt(t0)[:80], body.loc(b.term["line"]))
     if n < 7:
@@ -1267,3 +1292,75 @@ def layout_mirror(ctx, rep, rule):
                       (dec_order, lost, enc_order), enc.loc(), obligation=True)
         rep.check(rule, key, common == enc_common, "wire order %s on both sides" % common,
                   "the decoder reads %s but the encoder emits %s: the two are not inverses of each other" % (common, enc_common), enc.loc(), obligation=True)
+
+
+def msg_flags(ctx, rep, rule):
+    """msgFlags of an outgoing SNMPv3 message: one octet with bit 0 = auth, bit 1 = priv, bit 2 = reportable, each set exactly
+    when the corresponding field of the message is - for all eight combinations.  Decided by forward execution of
+    SnmpV3Message::push_ber over the eight cells; the `?` of the pushes is taken on its success edge."""
+    facts = ctx.facts
+    body = facts.body("<snmp::msg::v3::msg::SnmpV3Message<'_> as ber::BerEncoder>::push_ber")
+    if body is None:
+        rep.missing(rule, "SnmpV3Message::push_ber")
+        return
+    rep.note_analysed("functions", [body.path])
+    consts = {}
+    for nm, want in (("FLAG_AUTH", 1), ("FLAG_PRIV", 2), ("FLAG_REPORT", 4)):
+        try:
+            consts[nm] = facts.const_value("snmp::msg::v3::msg::" + nm)
+        except Exception:
+            consts[nm] = None
+        rep.check(rule, "snmp::msg::v3::msg::" + nm, consts[nm] == want, "= %d (RFC 3412 msgFlags)" % want, "%s = %s" % (nm, consts[nm]))
+    table = {}
+    for a in (0, 1):
+        for p_ in (0, 1):
+            for r in (0, 1):
+                def ev(t, a=a, p_=p_, r=r):
+                    pth = fp(t)
+                    if pth == ("arg1", "flag_auth"):
+                        return a
+                    if pth == ("arg1", "flag_priv"):
+                        return p_
+                    if pth == ("arg1", "flag_report"):
+                        return r
+                    # every push succeeds: `?` continues
+                    if t[0] == "discr" and flow.mentions(t, lambda s_: s_[0] == "call" and (s_[1] or "").endswith("::branch")):
+                        return 0
+                    return None
+                seq = cells.run_cell(body, ev, lambda b: (callee_path(b.term) or "").endswith("Buffer::push_u8"))
+                table[(a, p_, r)] = [v[1] if len(v) > 1 else None for _, v in seq]
+    n = min((len(v) for v in table.values()), default=0)
+    good = None
+    for k in range(n):
+        if all(table[c][k] == c[0] * 1 + c[1] * 2 + c[2] * 4 for c in table):
+            good = k
+    if n == 0:
+        rep.inconclusive(rule, "SnmpV3Message::push_ber|msgFlags", "no push_u8 of a cell-determined value found: flags octet not recognised", body.loc())
+        return
+    wrong = {c: v for c, v in table.items() if good is None}
+    rep.check(rule, "SnmpV3Message::push_ber|msgFlags", good is not None, "auth | priv << 1 | reportable << 2 for all eight combinations",
+              "the msgFlags octet is not auth|priv|reportable for every security level: (auth, priv, report) -> octets pushed %s" %
+              sorted(wrong.items()), body.loc(), obligation=True)
+
+
+def hand_lengths(ctx, rep, rule):
+    """TLV headers are written by Buffer::push_tag_len / push_tagged only: no encoder pushes a length octet by hand (a
+    `len() as u8` handed to push_u8 encodes only the short form and wraps above 255)."""
+    facts = ctx.facts
+    n = 0
+    for body in facts.body_list:
+        if body.path.startswith("buf::buffer::Buffer::"):
+            continue
+        if not any((callee_path(b.term) or "").startswith("buf::buffer::Buffer::push") for b in body.calls()):
+            continue
+        prov = flow.Prov(body)
+        for b in body.calls():
+            cp = callee_path(b.term) or ""
+            if cp in ("buf::buffer::Buffer::push_u8", "buf::buffer::Buffer::push_u8_unchecked") and len(b.term["args"]) > 1:
+                n += 1
+                t = prov.operand(b.term["args"][1])
+                lenish = flow.mentions(t, lambda s_: s_[0] == "call" and (s_[1] or "").split("::")[-1] == "len")
+                rep.check(rule, "%s|push_u8(%s)" % (body.path, flow.fmt(t)[:50]), not lenish, "not a length",
+                          "a length octet is written by hand (push_u8 of %s): only the short form is produced, lengths of 128 and more are mis-encoded; "
+                          "use push_tag_len" % flow.fmt(t)[:80], body.loc(b.term["line"]), obligation=True)
+    rep.info(rule, "push_u8 call sites outside Buffer", str(n))
